@@ -23,6 +23,11 @@ func TestGovcReplay(t *testing.T) {
 		n = 0
 	}
 	if n > 1<<20 {
+		// keep the distance of the match from the END of the header (that is what the
+		// parser's bounds depend on) when the witness length is capped
+		if fromEnd := n - idx; idx >= 0 && fromEnd >= 0 && fromEnd <= 1<<20 {
+			idx = 1<<20 - fromEnd
+		}
 		n = 1 << 20
 	}
 	filler := byte('x')
